@@ -106,6 +106,9 @@ pub enum Act {
     Heartbeat,
     /// three times (advance one interval, heartbeat)
     Ticks,
+    /// environment fault: the peer's connection stalls (its handler stops draining) and its
+    /// bounded control queue is full; lasts until the peer disconnects
+    Stall(u8),
     /// the application publishes to topic t (offered while the node is not subscribed to t, so
     /// that the fanout is used and a later JOIN starts from a non-empty fanout)
     Publish(u8),
@@ -129,6 +132,7 @@ impl Act {
             Act::Advance(_) => "Advance",
             Act::Heartbeat | Act::Ticks => "Heartbeat",
             Act::Publish(_) => "Publish",
+            Act::Stall(_) => "StallConnection",
         }
     }
 }
@@ -202,6 +206,8 @@ pub struct MeshSys {
     app: [i8; 3],
     /// the remote's subscription to the third topic
     other_sub: [bool; 3],
+    /// peers whose send queue is stalled and full (never drained by the harness)
+    stalled: [bool; 3],
     published: u32,
     /// reference backoff: (peer, topic) -> absolute virtual ns until which the pair is backed off
     deadline: BTreeMap<(u8, u8), u64>,
@@ -225,7 +231,7 @@ impl MeshSys {
             }
         }
         let high = mesh_params(cfg.mesh).3;
-        let mut s = MeshSys { prop, cfg: cfg.clone(), roles: rl, high, node: GsNode::new(beh), connected: [false; 3], subs: [[false; 2]; 3], local: [false; 2], app: [0; 3], other_sub: [false; 3], published: 0, deadline: BTreeMap::new(), marks: vec![] };
+        let mut s = MeshSys { prop, cfg: cfg.clone(), roles: rl, high, node: GsNode::new(beh), connected: [false; 3], subs: [[false; 2]; 3], local: [false; 2], app: [0; 3], other_sub: [false; 3], stalled: [false; 3], published: 0, deadline: BTreeMap::new(), marks: vec![] };
         if cfg.start == 3 {
             for a in [Act::Connect(0), Act::Connect(1), Act::Connect(2), Act::Sub(0, 3), Act::Sub(1, 3)] {
                 if let Err(m) = s.step(&a) {
@@ -287,6 +293,7 @@ impl MeshSys {
                 self.connected[p as usize] = false;
                 self.subs[p as usize] = [false; 2];
                 self.other_sub[p as usize] = false;
+                self.stalled[p as usize] = false;
             }
             Act::Sub(p, mask) | Act::Unsub(p, mask) => {
                 let sub = matches!(a, Act::Sub(..));
@@ -353,6 +360,13 @@ impl MeshSys {
             Act::Advance(k) => mc::vclock::advance(if k == 0 { HEARTBEAT } else { Duration::from_secs(5) }),
             Act::Heartbeat => self.node.heartbeat(),
             Act::Ticks => unreachable!("handled by step"),
+            Act::Stall(p) => {
+                // first take out what a live handler would already have sent
+                let _ = self.node.drain_wire(&pid(p));
+                let n = self.node.stall(&pid(p));
+                assert!(n > 0, "control queue was already full");
+                self.stalled[p as usize] = true;
+            }
             Act::Publish(t) => {
                 self.published += 1;
                 if !self.node.beh.verif_fanout().get(TOPICS[t as usize]).map_or(true, |f| f.is_empty()) {
@@ -394,7 +408,8 @@ impl MeshSys {
         let now_after = mc::vclock::now_ns();
         // ---- what went out on the wire
         for p in 0..3u8 {
-            if !self.connected[p as usize] {
+            if !self.connected[p as usize] || self.stalled[p as usize] {
+                // a stalled connection's handler does not take anything out of the queue
                 continue;
             }
             for rpc in self.node.drain_parsed(&pid(p)) {
@@ -428,8 +443,11 @@ impl MeshSys {
                 removed.push((*p, t));
             }
         }
-        for (_, _) in &added {
+        for (p, _) in &added {
             self.marks.push(format!("add.{via}"));
+            if *p < 3 && self.stalled[*p as usize] {
+                self.marks.push(format!("add-stalled-peer.{via}"));
+            }
         }
         if matches!(a, Act::Heartbeat) {
             let (omin, low, _, _) = mesh_params(self.cfg.mesh);
@@ -634,6 +652,9 @@ impl Sys for MeshSys {
                     v.push(Act::Prune(p, 1, b));
                 }
                 v.push(Act::Prune(p, 3, 1));
+                if !self.stalled[p as usize] {
+                    v.push(Act::Stall(p));
+                }
                 // third topic (only the remote subscribes)
                 v.push(if self.other_sub[p as usize] { Act::Unsub(p, 4) } else { Act::Sub(p, 4) });
                 if self.app[p as usize] != -1 {
@@ -686,6 +707,7 @@ impl Sys for MeshSys {
         use std::fmt::Write;
         let rel: Vec<((u8, u8), u64)> = self.deadline.iter().filter(|(_, d)| **d > now).map(|(k, d)| (*k, d - now)).collect();
         write!(s, "{:?}|{:?}|{:?}|{:?}|{:?}|{:?}|", self.connected, self.subs, self.local, self.app, rel, self.other_sub).unwrap();
+        write!(s, "{:?}|", self.stalled).unwrap();
         write!(s, "{:?}|{:?}|{:?}|", self.node.mesh(), self.node.beh.verif_fanout(), self.node.beh.verif_explicit_peers()).unwrap();
         for p in 0..3u8 {
             let id = pid(p);
